@@ -273,7 +273,7 @@ pub fn gen_header(kind: Kind, r: &mut Rng, p_random_state: bool, cb: u8, bad_arg
             if random_state {
                 h.ctor = 0;
                 h.ratios = vec![0.01];
-                if tier == Tier::Thorough && r.chance(1, 10) {
+                if r.chance(1, if tier == Tier::Thorough { 10 } else { 30 }) {
                     // WTinyLFUCache::new(size, samples): derived segment sizes
                     let size = r.range(100, 130) as usize;
                     h.ctor = 1;
@@ -290,8 +290,17 @@ pub fn gen_header(kind: Kind, r: &mut Rng, p_random_state: bool, cb: u8, bad_arg
                     0 => h.samples = 0,
                     1 if !random_state => h.ratios = vec![*r.pick(&[f64::NAN, -1.0, 0.0, 1.0, 2.0])],
                     _ => {
-                        let i = r.below(3) as usize;
-                        h.sizes[i] = 0;
+                        if h.sizes.len() > 3 {
+                            // `new(size, samples)`: a small size derives a zero window segment
+                            let size = *r.pick(&[0usize, 1, 50, 99]);
+                            let wsz = ((size as f64) * 0.01) as usize;
+                            let hsz = ((size as f64) * 0.80) as usize;
+                            let csz = ((size as f64) * (1f64 - 0.80)) as usize;
+                            h.sizes = vec![wsz, csz, hsz, size];
+                        } else {
+                            let i = r.below(3) as usize;
+                            h.sizes[i] = 0;
+                        }
                     }
                 }
             }
@@ -335,7 +344,7 @@ pub fn gen_header(kind: Kind, r: &mut Rng, p_random_state: bool, cb: u8, bad_arg
         Kind::Tlfu | Kind::Sampled => 5,
         _ => h.sizes.iter().sum(),
     };
-    h.universe = ((total + 3).clamp(4, if tier == Tier::Quick { 11 } else { 140 })) as u32;
+    h.universe = ((total + 3).clamp(4, if tier == Tier::Quick && total < 64 { 11 } else { 140 })) as u32;
     if matches!(kind, Kind::Tlfu | Kind::Sampled) {
         h.universe = r.range(1, 8) as u32;
     }
@@ -826,11 +835,16 @@ pub fn gen(prop: &str, verif_seed: u64, run_index: u64, tier: Tier) -> Trace {
         alloc,
         events,
         faults: vec![],
+        cb_panic_at: 0,
         probe_all: pl.probe_all && rs.chance(3, 4),
         env_b: None,
     };
     if prop == "C18" {
         t.probe_all = false;
+    }
+    if prop == "C15" && t.header.with_cb && rs.chance(1, 5) {
+        // fault class of C15: the user's callback itself fails at its n-th invocation
+        t.cb_panic_at = rs.range(1, 6);
     }
     // differential second execution
     if conversion_run {
